@@ -553,6 +553,8 @@ def q4(prog, rep, rule="Q4"):
 # ----------------------------------------------------------------------------------------------
 TRIAGE_Q5 = {
     # construct key -> reason it cannot be reached with untrusted blob content
+    r"rx:price_feed::types::v2::(Base|Quote) as core::str::traits::FromStr>::from_str::get_regex\|call:expect":
+        "Regex::new of a string literal (`^[a-zA-Z]+$`): input independent, the pattern is valid",
 }
 
 
